@@ -98,6 +98,7 @@ func (g *G) genSelEquiv(id string) *History {
 	gr := []grp{
 		{"Accept", []string{"text/plain;charset=utf-8", "text/plain ;charset=utf-8", "text/plain; charset=utf-8", "text/plain ; charset=utf-8"}, []string{"text/plain", "text/plain;charset=latin1"}},
 		{"Accept", []string{"text/x;a=1;b=2", "text/x ;b=2 ;a=1", "text/x; b=2; a=1", "text/x;b=2;a=1"}, []string{"text/x;a=1", "text/x;a=2;b=1"}},
+		{"Accept", []string{`x/y;a="1;b=2";c=3`, `x/y;c=3;a="1;b=2"`, `x/y ; a="1;b=2" ; c=3`}, []string{`x/y;a="1;c=3;b=2"`, `x/y;a="1";b=2;c=3`, `x/y;a="1;b=2"`}},
 		{"Accept", []string{"text/html, application/json", "application/json,text/html", "application/json , text/html", "text/html|application/json"}, []string{"text/html", "application/json, text/xml"}},
 		{"Accept-Encoding", []string{"gzip, br", "br,gzip", "x-gzip, br", "br , x-gzip", "gzip|br"}, []string{"gzip", "br, deflate"}},
 		{"Accept-Encoding", []string{"gzip", "x-gzip", " gzip ", "gzip,"}, []string{"identity", "gzipx"}},
@@ -105,7 +106,7 @@ func (g *G) genSelEquiv(id string) *History {
 		{"Accept-Language", []string{"fr, x-caf\xe9", "x-caf\xe9,fr", "fr , x-caf\xe9"}, []string{"fr, x-caf\xe8", "fr, x-caf\xc3\xa9", "fr"}},
 		{"Te", []string{"trailers, gzip", "gzip,trailers", "x-gzip, trailers"}, []string{"trailers"}},
 		{"Accept-Charset", []string{"utf-8, iso-8859-1", "iso-8859-1,utf-8"}, []string{"utf-8"}},
-	}[g.r.Intn(9)]
+	}[g.r.Intn(10)]
 	url := "http://a.test/sel"
 	hdrOf := func(v string) Hdr {
 		// "a|b" = two field lines
